@@ -99,16 +99,15 @@ Lemma full_pred res1 k nc1 nc2 data prog :
   exists l1 read1 pres,
     level1 res1 nc1 data = Some l1 /\ read_counter l1 = Some read1 /\
     run_prog prog (counter_toks l1) acr0 = Some pres /\
-    ((1 <= length l1 / nc2)%nat ->
-     exists l2 read2,
-       level2 (k * res1) nc2 l1 = Some l2 /\ read_counter l2 = Some read2 /\
-       pred_ok (CCounter res1 (k * res1) nc1 nc2 data read1 read2 prog pres) = true).
+    exists l2 read2,
+      level2 (k * res1) nc2 l1 = Some l2 /\ read_counter l2 = Some read2 /\
+      pred_ok (CCounter res1 (k * res1) nc1 nc2 data read1 read2 prog pres) = true.
 Proof.
   intros H1 Hk Hv.
   destruct (two_levels res1 k nc1 nc2 data H1 Hk Hv) as (l1 & r1 & E1 & R1 & L1 & Hl2).
   destruct (programs_exact res1 nc1 data l1 prog (valid_input_counter _ _ _ Hv) E1) as (pres & Ep & Hp).
-  exists l1, r1, pres. repeat split; try assumption. intros Hbs.
-  destruct (Hl2 Hbs) as (l2 & r2 & E2 & R2 & L2). exists l2, r2. repeat split; try assumption.
+  exists l1, r1, pres. repeat split; try assumption.
+  destruct Hl2 as (l2 & r2 & E2 & R2 & L2). exists l2, r2. repeat split; try assumption.
   unfold pred_ok. rewrite Hv, L1, L2. cbn [andb].
   apply forallb_forall. intros [s|] Hs; [|reflexivity]. rewrite Forall_forall in Hp.
   apply Z.eqb_eq. apply (Hp (Some s) Hs).
